@@ -1105,6 +1105,11 @@ fn gen_reg_forms(em: &mut Em, rng: &mut Rng) {
         for form in 1..nforms {
             for r in 0..reps {
                 let w = if rng.chance(1, 3) { 32 } else { 64 };
+                // the reversed-view form only in f64: ndarray sums a reversed view backwards, and in f32 the
+                // difference to the left-to-right model, amplified by the cancellation in `1 - q` of r2 /
+                // explained variance, can exceed the relative tolerance of `regtf` (seen: 1.8e-5, thorough
+                // seed 2); f32 with a non-trivial layout is covered by the strided form
+                let w = if single && forms::REG1_FORM_NAMES[form].contains("reversed") { 64 } else { w };
                 let wide = rng.chance(1, 4);
                 let p = if single { 1 } else { 2 + rng.below(if wide { 5 } else { 2 }) };
                 if r % 3 != 2 {
